@@ -81,8 +81,10 @@ func c19M6Caller(r *core.R, m *c19Model, s *c19Search, tsFld *types.Var) {
 		for _, ord := range []int{-1, 0, +1} {
 			ord := ord
 			u := m.orderWalk(st.b, st.idx, ops.atom(ord, found), ops, func(n ast.Node) bool {
-				if ret, ok := n.(*ast.ReturnStmt); ok && m.isSuccessReturn(ret) && objOf(info, ret.Results[0]) == s.loVar && ord < 0 && badAns == nil {
-					badAns = n
+				if ret, ok := n.(*ast.ReturnStmt); ok && ord < 0 && badAns == nil {
+					if res := m.okResults(C, ret); len(res) > 0 && objOf(info, res[0]) == s.loVar {
+						badAns = n
+					}
 				}
 				if s.enter != nil && c19Contains(n, s.enter.Pos()) && ord >= 0 && badEnt == nil {
 					badEnt = n
@@ -157,13 +159,15 @@ func c19M6Finder(r *core.R, m *c19Model, s *c19Search, tsFld *types.Var) {
 					}
 				}
 			}
-			if ret, ok := n.(*ast.ReturnStmt); ok && m.isSuccessReturn(ret) {
-				oc.nodes[n.Pos()] = true
-				if s.rLo < len(ret.Results) && s.fS[objOf(info, ret.Results[s.rLo])] {
-					oc.retLow = n
-				}
-				if s.rHi < len(ret.Results) && s.fS[objOf(info, ret.Results[s.rHi])] {
-					oc.retHi = n
+			if ret, ok := n.(*ast.ReturnStmt); ok {
+				if res := m.okResults(F, ret); res != nil {
+					oc.nodes[n.Pos()] = true
+					if s.rLo < len(res) && s.fS[objOf(info, res[s.rLo])] {
+						oc.retLow = n
+					}
+					if s.rHi < len(res) && s.fS[objOf(info, res[s.rHi])] {
+						oc.retHi = n
+					}
 				}
 			}
 			return !c19Overwrites(info, n, s.fS)
